@@ -169,6 +169,9 @@ func (n *Node) Stop() {
 	}
 }
 
+// OwnDir makes the node remove its directory when it stops.
+func (n *Node) OwnDir() { n.ownDir = true }
+
 // StopKeepDir stops the node but keeps its directory (restart scenarios).
 func (n *Node) StopKeepDir() {
 	n.ownDir = false
